@@ -168,6 +168,7 @@ func runC02(r *Run) {
 	r.RuleDoc("C02.Q5", "a canary recorded in the status cannot outlive its cause: status.canary is decided on every path to the status write (stale canary nodes would stay hidden from the rolling update for ever)")
 	r.Floor("C02.Q5", 1)
 	c14CanaryAlwaysDecided(r, "C02.Q5")
+	c02Imports(r)
 }
 
 func truncate(s string, n int) string {
